@@ -301,7 +301,7 @@ ImageOf(r, a) == ImageOfT(r, a, <<>>)
 
 \* C16: every vertex in the half-open fundamental box, wrapping idempotent
 InBox(S) ==
-  Len(S.cfg.L) = 0 \/
+  IF Len(S.cfg.L) = 0 THEN TRUE ELSE
   /\ Chk("C16.vertex outside the half-open fundamental box",
          \* a vertex the insertion had to perturb (documented displacement ~1e-8 * local scale) may
          \* sit that far outside the box; its lattice home must be inside
